@@ -93,6 +93,13 @@ func c14TCPJobs(tier string) []string {
 			}
 		}
 	}
+	// the receiver's right edge (rcvNxt + free buffer) starts below the wrap and crosses it while
+	// data arrives: small receive buffer, peer data longer than the distance to the wrap
+	for _, edge := range []uint64{1 << 32, 1 << 31} {
+		for _, dist := range []uint64{250, 500, 900} {
+			add(fmt.Sprintf("or=swc,devs=ko,mss=100,rcvbuf=200,pd=12x100,read=eager,w=10,iss=%d,piss=%d,b=1", uint32(edge-dist-7), uint32(edge-dist)), 1)
+		}
+	}
 	return jobs
 }
 
